@@ -371,7 +371,7 @@ static void
 funcalloc(struct func *f, struct decl *d)
 {
 	enum instkind op;
-	struct block *end;
+	struct block *end, *b;
 	struct value *v;
 	int align;
 
@@ -379,6 +379,12 @@ funcalloc(struct func *f, struct decl *d)
 	calcvla(f, d->type);
 	end = f->end;
 	if (d->type->size || !(d->type->prop & PROPVM)) {
+		if (f->start->jump.kind) {
+			/* closed by control flow in a parameter's array length: open a block in front of it */
+			b = mkblock("start");
+			b->next = f->start;
+			f->start = b;
+		}
 		f->end = f->start;
 		v = mkintconst(d->type->size);
 	} else {
